@@ -93,5 +93,9 @@ func RandomMUSInput(r *Rng, maxVars, maxClauses int) (cnf [][]int, n int) {
 	if len(cnf) > maxClauses {
 		cnf = cnf[:maxClauses]
 	}
+	if r.Chance(1, 12) { // the empty clause, alone a minimal core
+		pos := r.Intn(len(cnf) + 1)
+		cnf = append(cnf[:pos:pos], append([][]int{{}}, cnf[pos:]...)...)
+	}
 	return cnf, n
 }
